@@ -205,7 +205,13 @@ def exc_duplicate_edge(repo, tier="quick"):
             ring_adds.append((call, nid, ct, m[2][0][1]))
         else:
             chain_adds.append((call, nid, ct))
-    need(ring_adds, "anchor vanished: no add_edge for ring edges in read_cgsmiles", fi)
+    if not ring_adds:
+        bulk = [c for c, n in fl.calls() if isinstance(c.func, ast.Attribute) and c.func.attr in ("add_edges_from", "add_weighted_edges_from")]
+        if bulk:
+            return [ob_fail(oid, fi, bulk[0], construct="ring edges added in bulk: %s" % ast.unparse(bulk[0])[:80], instance="ring-add",
+                            reason="ring bonds are added in one batch: a ring bond that duplicates another ring bond of the same node is not compared with it "
+                                   "and collapses silently into one edge")]
+        need(False, "anchor vanished: no add_edge for ring edges in read_cgsmiles", fi)
     for call, nid, ct, elem in ring_adds:
         G = method_call(ct)[0]
         found = None
@@ -420,7 +426,16 @@ def exc_annotations(repo, tier="quick"):
                             reason=why or ("the test is not applied to every entry" if not per_entry else "an entry is split before it is tested"))))
     # (b) Signature.bind inside try/except TypeError -> SyntaxError
     binds = [(call, nid) for call, nid in fl.calls() if isinstance(call.func, ast.Attribute) and call.func.attr == "bind"]
-    need(binds, "anchor vanished: no .bind(...) call in _parse_dialect_string", fi)
+    if not binds:
+        # without Signature.bind the overflow of positional values has to be rejected explicitly
+        explicit = False
+        for n in cfg.nodes:
+            if n.kind == "if" and any(isinstance(x, ast.Call) and isinstance(x.func, ast.Name) and x.func.id == "len" for x in ast.walk(n.ast.test)):
+                ok_r, _ = arm_always_raises(fi, n, "T", {"SyntaxError"})
+                explicit = explicit or ok_r
+        (obs.append(ob_ok(oid, fi, construct="explicit length test raising SyntaxError", instance="bind", reason="surplus positional values are rejected")) if explicit else
+         obs.append(ob_fail(oid, fi, construct="no Signature.bind and no explicit length test", instance="bind",
+                            reason="one positional value too many is no longer rejected with SyntaxError (it is silently dropped or mis-assigned)")))
     for call, nid in binds:
         hs = [cfg.nodes[d] for d, lab in cfg.succ[nid] if lab == "exc"]
         good = False
